@@ -35,7 +35,9 @@ package actor
 import (
 	"context"
 	"fmt"
+	"os"
 	"sort"
+	"strconv"
 	"strings"
 	"testing"
 	"time"
@@ -512,6 +514,43 @@ func c32FilterGrains(d c32Dispatch, ids []string, kinds map[string]c32GrainKind)
 	return out
 }
 
+
+// ---------------------------------------------------------------------------------------------
+// wall-budget shares: the scenarios run one after the other; each may use the budget up to its
+// cumulative share (time left over by an early finisher is inherited by the next one), so that an
+// overloaded machine cuts into every enumeration proportionally instead of starving the later ones.
+// Hitting a share only lowers coverage (exhaustive:false for that scenario).
+// ---------------------------------------------------------------------------------------------
+
+var c32Start = time.Now()
+
+type c32Budget struct {
+	e        *vsched.Enum
+	deadline time.Time
+	n        int
+}
+
+func c32Share(e *vsched.Enum, cumulative float64) *c32Budget {
+	secs, err := strconv.ParseFloat(os.Getenv("VERIF_BUDGET_S"), 64)
+	if err != nil || secs <= 0 {
+		secs = 3600
+	}
+	return &c32Budget{e: e, deadline: c32Start.Add(time.Duration(cumulative * secs * float64(time.Second)))}
+}
+
+// mine = e.Mine() plus the scenario's own share of the wall budget.
+func (b *c32Budget) mine() bool {
+	if !b.e.Mine() {
+		return false
+	}
+	b.n++
+	if b.n%64 == 1 && time.Now().After(b.deadline) && b.e.St.Capped == "" {
+		b.e.St.Capped = fmt.Sprintf("scenario share of the wall budget reached after %d cases", b.e.St.Executions)
+		return false
+	}
+	return true
+}
+
 // ---------------------------------------------------------------------------------------------
 // plan-actors
 // ---------------------------------------------------------------------------------------------
@@ -525,6 +564,7 @@ func c32PlanActors(d c32Dispatch) {
 		"dispatch": d.note,
 	})
 	defer e.Done()
+	bud := c32Share(e, 1.0)
 	// pre-built wire records: slot s holds kind k
 	wire := make([][]*internalpb.Actor, 4)
 	for s := range wire {
@@ -554,7 +594,7 @@ func c32PlanActors(d c32Dispatch) {
 					caseMax = 2 // quick tier: the largest survivor set gets the smaller actor multisets
 				}
 				c32Multisets(len(c32ActorKinds), caseMax, func(sel []int) {
-					if !e.Mine() {
+					if !bud.mine() {
 						return
 					}
 					entries := make([]c32Entry, 0, len(sel))
@@ -673,9 +713,10 @@ func c32PlanGrains(d c32Dispatch) {
 		"grains":  fmt.Sprintf("multisets of size 0..%d over {lazy, eager, relocation-disabled, system-named}", maxGrains),
 	})
 	defer e.Done()
+	bud := c32Share(e, 0.05)
 	for nt := 1; nt <= 4; nt++ {
 		c32Multisets(len(c32GrainKinds), maxGrains, func(sel []int) {
-			if !e.Mine() {
+			if !bud.mine() {
 				return
 			}
 			kinds := map[string]c32GrainKind{}
@@ -730,9 +771,10 @@ func c32Redistribute(d c32Dispatch) {
 	maxActors := vsched.Pick(4, 5)
 	e := vsched.NewEnum("redistribute", map[string]any{
 		"survivors": "0..2 remaining peers with role sets over {r1,r2}; leader role sets over {r1,r2}",
-		"unsent":    fmt.Sprintf("ordered actor lists of length 0..%d (quick tier: 0..3 for 2 survivors) over %d kinds, 0..2 lazy grains", maxActors, len(c32RedistKinds)),
+		"unsent":    fmt.Sprintf("ordered actor lists of length 0..%d (one less for 2 survivors) over %d kinds, 0..2 lazy grains", maxActors, len(c32RedistKinds)),
 	})
 	defer e.Done()
+	bud := c32Share(e, 0.30)
 	for ns := 0; ns <= 2; ns++ {
 		roleIdx := make([]int, ns+1) // [0] = leader
 		for {
@@ -748,11 +790,11 @@ func c32Redistribute(d c32Dispatch) {
 			}
 			for ng := 0; ng <= 2; ng++ {
 				caseMax := maxActors
-				if ns == 2 && !vsched.Rep().Thorough() {
-					caseMax = 3
+				if ns == 2 {
+					caseMax = maxActors - 1 // the largest survivor set gets the shorter lists
 				}
 				c32Sequences(len(c32RedistKinds), caseMax, func(sel []int) {
-					if !e.Mine() {
+					if !bud.mine() {
 						return
 					}
 					var actors []*internalpb.Actor
@@ -887,6 +929,7 @@ func c32Batching(t *testing.T) {
 		"batch_size": defaultRelocationBatchSize,
 	})
 	defer e.Done()
+	bud := c32Share(e, 0.10)
 	maxA, maxG := sizes[len(sizes)-1], gsizes[len(gsizes)-1]
 	actors := make([]*internalpb.Actor, maxA)
 	for i := range actors {
@@ -903,7 +946,7 @@ func c32Batching(t *testing.T) {
 			for _, ng := range gsizes {
 				nreq := (na+defaultRelocationBatchSize-1)/defaultRelocationBatchSize + (ng+defaultRelocationBatchSize-1)/defaultRelocationBatchSize
 				for failAt := -1; failAt < nreq; failAt++ {
-					if !e.Mine() {
+					if !bud.mine() {
 						continue
 					}
 					input := fmt.Sprintf("actors=%d grains=%d failing-request=%d", na, ng, failAt)
@@ -1022,6 +1065,7 @@ func c32Relocate(t *testing.T) {
 		"what": "real handleNodeLeftEvent -> relocator -> relocationWorker.relocate -> (fake transport) -> real relocateBatchHandler, stale registry records, snapshot in the leader's store",
 	})
 	defer e.Done()
+	bud := c32Share(e, 0.60)
 	for n := 0; n <= maxPeers; n++ {
 		nt := n + 1
 		roleIdx := make([]int, nt)
@@ -1030,7 +1074,7 @@ func c32Relocate(t *testing.T) {
 			for {
 				for gsi, gset := range c32E2EGrainSets[:gsets] {
 					c32Multisets(len(c32E2EKinds), maxActors, func(sel []int) {
-						if !e.Mine() {
+						if !bud.mine() {
 							return
 						}
 						sel = append([]int(nil), sel...)
